@@ -45,7 +45,9 @@ Section FromLaws.
   Definition assignW (q fixed : bool) (cap : nat) (e : etype) (x1 : pyval) : res pyval :=
     match x1 with
     | PBytes s => if fast_bytesG e && lenG fixed (length s) cap
-                  then chkG q e (map (fun c => PInt (Z.of_N (c mod 256))) s) else slowW q fixed cap e x1
+                  then chkG q e (map (fun c => PInt (Z.of_N (c mod 256))) s)
+                  else if t_text_guard TG then Raise ValueError else slowW q fixed cap e x1
+    | PStr _ => if t_text_guard TG then Raise ValueError else slowW q fixed cap e x1
     | PArr dt' l => if dtype_eqb dt' (dtype_of PW e) && lenG fixed (length l) cap then chkG q e l else slowW q fixed cap e x1
     | _ => slowW q fixed cap e x1
     end.
@@ -77,8 +79,10 @@ Section FromLaws.
     intros strict q db fixed cap sl e x v S W H. rewrite assign_array_with_gen in H.
     assert (W1 : wfv PW db strict (strconv sl x) = true).
     { unfold strconv. destruct sl; auto. destruct x; auto. }
-    destruct (strconv sl x) as [| | | | |s| | |dt' l|] eqn:X; cbn [assignW] in H; try (eapply slowW_ok; eauto; fail).
-    - destruct (fast_bytesG e && lenG fixed (length s) cap) eqn:C; [|eapply slowW_ok; eauto].
+    destruct (strconv sl x) as [| | | | |s| | |dt' l|] eqn:X; cbn [assignW] in H; try (eapply slowW_ok; eauto; fail);
+      try (destruct (t_text_guard TG); [discriminate|]; eapply slowW_ok; eauto; fail).
+    - destruct (fast_bytesG e && lenG fixed (length s) cap) eqn:C;
+        [|destruct (t_text_guard TG); [discriminate|]; eapply slowW_ok; eauto].
       apply andb_true_iff in C. destruct C as [Cb Cl].
       destruct e as [[|w|w|w]|t]; cbn [fast_bytesG] in Cb; try discriminate.
       eapply chkG_ok; [exact S| | | |exact H].
